@@ -147,7 +147,7 @@ def _absolute(own: str, own_is_pkg: bool, level: int, mod: str) -> str:
 
 def steer_wildcards(model):
     """Known finding `wildcard-alias-born-resolved`: keep a wildcard import only if nothing it can expand is an alias:
-    its target is a generated module without any import statement, or lies in a package that is not generated at all."""
+    its target is a module of the same package without any import statement, or lies in a package that is not generated at all."""
     mods = {}
     is_pkg = {}
     for pkg in model["pkgs"]:
@@ -157,9 +157,13 @@ def steer_wildcards(model):
             is_pkg[path] = (rel == "" and not pkg["single"]) or rel.endswith(".")
     tops = {p["name"] for p in model["pkgs"]}
 
-    def clean(path: str) -> bool:
+    def clean(own: str, path: str) -> bool:
         if path in mods:
-            return not any(s[0] in ("from", "import", "star") or (s[0] == "all" and s[2]) for s in mods[path])
+            # same package: expanding it never loads anything (a package loaded *during* expansion is itself only
+            # expanded with the caller's `external` setting by the next resolve_aliases call)
+            return path.split(".")[0] == own.split(".")[0] and not any(
+                s[0] in ("from", "import", "star") or (s[0] == "all" and s[2]) for s in mods[path]
+            )
         return path.split(".")[0] not in tops
 
     out = []
@@ -167,7 +171,7 @@ def steer_wildcards(model):
         new_mods = []
         for rel, body in pkg["mods"]:
             own = pkg["name"] + ("." + rel.rstrip(".") if rel else "")
-            new_mods.append([rel, [s for s in body if s[0] != "star" or clean(_absolute(own, is_pkg[own], s[1], s[2]))]])
+            new_mods.append([rel, [s for s in body if s[0] != "star" or clean(own, _absolute(own, is_pkg[own], s[1], s[2]))]])
         out.append({**pkg, "mods": new_mods})
     return {"pkgs": out}
 
